@@ -311,7 +311,7 @@ def _words(template):
     return re.findall(r'[A-Za-z_$][A-Za-z_$0-9./]*', ''.join(ch if ord(ch) < PH0 else ' ' for ch in template))
 
 
-def h_chars(template, k, kind='dt', decl=('a', 'b'), consts=()):
+def h_chars(template, k, kind='dt', decl=('a', 'b'), consts=(), again=True):
     """template: specification text in which the code points U+E000.. mark k positions holding ARBITRARY characters"""
     consts = [tuple(c) for c in consts]
     cdict = {n: v for n, _, v in consts}
@@ -343,6 +343,7 @@ def h_chars(template, k, kind='dt', decl=('a', 'b'), consts=()):
                 out = _outcome(s)
                 st = _CUR['stream']
                 seen = list(st.data) if st is not None else None
+                out2 = _outcome(s) if out == 'rej' and again else out          # a rejected text stays rejected when parse() is called again on the object
             # the oracle judges the text the USER wrote (plus the ';' that may be omitted), not what parse() made of it
             data = [cs[ord(ch) - PH0] if 0 <= ord(ch) - PH0 < k else ord(ch) for ch in tmpl]
             if not tmpl.endswith(';'):
@@ -355,10 +356,12 @@ def h_chars(template, k, kind='dt', decl=('a', 'b'), consts=()):
             s = _spec(kind, decl, consts)
             s.spec = text
             out = _outcome(s)
+            out2 = _outcome(s) if out == 'rej' and again else out
             full = text if text.endswith(';') else text + ';'
             data = [ord(ch) for ch in full]
         env.observe('outcome', [0 if out == 'ok' else (1 if out == 'rej' else 2)])
-        res = [('only-RTAMTException-' + (out if out.startswith('other') else 'x'), A.bool(not out.startswith('other')))]
+        res = [('only-RTAMTException-' + (out if out.startswith('other') else 'x'), A.bool(not out.startswith('other'))),
+               ('rejected-again-on-second-parse', A.bool(out2 == out))]
         if out == 'ok':
             ok, toks = G.derivable(data)
             if refsem.TWIN == 'nospace':              # vacuity twin: an oracle that does not know white space - must be refuted
@@ -493,7 +496,7 @@ def obligations(tier, rng):
                 if quick and i < L - 1 and ((mode == 'i' and i % 3 != ti % 3) or (ti in (2, 4) and i % 2 != (0 if mode == 'r' else 1))):
                     continue                                      # quick: every replacement (every other one on two templates), a third of the insertions
                 out.append(ob('C14', 'chars', 'char1/%s/T%d/%s@%d/%r' % (kind, ti, mode, i, t), template=_mark(t, i, mode), k=1, kind=kind, consts=[list(c) for c in consts],
-                              max_paths=4000, wall=600, validate=1))
+                              max_paths=4000, wall=600, validate=1, again=(not quick or i % 4 == 0)))      # quick: the second parse() on every fourth position
     # degenerate texts (no arbitrary character at all: the k = 0 members of the family)
     for t in ['', ' ', ';', '\n', ';;', '// c', '/* c */']:
         out.append(ob('C14', 'chars', 'char0/dt/%r' % t, template=t, k=0, kind='dt', validate=0))
